@@ -175,7 +175,7 @@ def families(tier):
         parts += [["cb == 3", "x1 == %d" % k, "x2 == %d" % NOPP, "rx == %d" % r, "dord == %d" % dd] for k in range(4) for r in (0, 1) for dd in (2, 3)]
     else:
         # sized to finish inside the wall budget on 16 cores: a second completion step only with the gated callbacks (cb 3)
-        pre += ["dord <= 1 or (x2 == %d and x3 == %d)" % (NOPP, NOPP), "t1 >= 4", "c3 == %d" % NOPC, "b3 == 0", "size <= 2", "b1 <= 1", "a2 <= 1", "b2 <= 1", "cb == 3 or c2 == %d" % NOPC,
+        pre += ["dord == 0 or (x2 == %d and x3 == %d)" % (NOPP, NOPP), "t1 >= 4", "c3 == %d" % NOPC, "b3 == 0", "size <= 2", "b1 <= 1", "a2 <= 1", "b2 <= 1", "cb == 3 or c2 == %d" % NOPC,
                 "x3 == %d or (x2 <= 1 and 2 <= x3 <= 3) or (2 <= x2 <= 3 and x3 <= 1) or (x2 == 6 and x3 <= 1) or (x2 == 4 and x3 == 4)" % NOPP, "a3 <= 1", "t == 0 or t >= 4"]
         parts = [p + ["c1 == %d" % c] for p in parts_product(cb=(1, 3), x1=range(4), x2=range(NOPP + 1), rx=(0, 1)) for c in range(NOPC + 1)]
     return [Family(name="gather", fn="tpl_gather", params=P, pre=pre, parts=parts,
